@@ -33,7 +33,7 @@ import (
 var fanPresetNames = []string{"off", "eco", "low", "med", "high", "turbo", "full", "night"}
 
 func runFanSpeed(r *vk.Run) {
-	n := r.Pick(4000, 150000)
+	n := r.Pick(4000, 450000)
 	for i := 0; i < n; i++ {
 		if !r.Mine(i) {
 			continue
